@@ -131,6 +131,43 @@ def _benign_job(args):
         shutil.rmtree(d, ignore_errors=True)
 
 
+def _seeded_job(args):
+    pid, sdir, base_keys, src_repo = args
+    import subprocess
+    d = tempfile.mkdtemp(prefix='vsa_st_')
+    try:
+        copy_py_tree(src_repo, d)
+        r = subprocess.run(['git', 'apply', '--unsafe-paths', '--directory=' + d, os.path.join(sdir, 'patch.diff')], cwd=d, capture_output=True, text=True)
+        if r.returncode != 0:
+            r = subprocess.run(['patch', '-p1', '-s', '-i', os.path.join(sdir, 'patch.diff')], cwd=d, capture_output=True, text=True)
+        if r.returncode != 0:
+            return {'seed': os.path.basename(sdir), 'status': 'skipped', 'why': 'patch does not apply to the current tree'}
+        with contextlib.redirect_stdout(io.StringIO()):
+            res = run_rules(pid, d)
+        new = [k for k in res['keys'] if k not in base_keys]
+        if res['error'] or res['floor']:
+            return {'seed': os.path.basename(sdir), 'status': 'analysis-error', 'detail': res['error'] or res['floor']}
+        return {'seed': os.path.basename(sdir), 'status': 'detected' if new else 'MISSED', 'finding': new[:2]}
+    finally:
+        shutil.rmtree(d, ignore_errors=True)
+
+
+def seeded_for(pid):
+    from . import VERIF
+    out = []
+    root = os.path.join(VERIF, 'seeded')
+    if not os.path.isdir(root):
+        return out
+    for name in sorted(os.listdir(root)):
+        mp = os.path.join(root, name, 'meta.json')
+        if not os.path.exists(mp):
+            continue
+        meta = json.load(open(mp))
+        if any(str(x).startswith(pid + '-') for x in meta.get('detected_by', [])):
+            out.append(os.path.join(root, name))
+    return out
+
+
 def rename_locals(tree):
     """Consistently rename the local variables (not parameters) of every function that has no nested
     scope other than comprehensions.  Semantics preserving."""
@@ -190,9 +227,11 @@ def run_for(pid, seed=0, repo=None, workers=None, variants=('unparse', 'unparse+
     bjobs = [(pid, k, base_keys, repo) for k in variants]
     workers = workers or min(16, max(1, len(jobs) + len(bjobs)))
     results, benign = [], []
+    sjobs = [(pid, sd, base_keys, repo) for sd in seeded_for(pid)]
     with ProcessPoolExecutor(max_workers=workers) as ex:
         fm = list(ex.map(_mutant_job, jobs))
         fb = list(ex.map(_benign_job, bjobs))
+        fs = list(ex.map(_seeded_job, sjobs))
     results, benign = fm, fb
     killed = [r for r in results if r['status'].startswith('killed')]
     survived = [r for r in results if r['status'] == 'SURVIVED']
@@ -202,10 +241,13 @@ def run_for(pid, seed=0, repo=None, workers=None, variants=('unparse', 'unparse+
         'mutants_skipped': [(r['name'], r.get('why')) for r in skipped],
         'benign_total': len(benign), 'benign_silent': sum(1 for b in benign if b['silent']),
         'benign_details': benign,
+        'seeded_total': len(fs), 'seeded_detected': sum(1 for x in fs if x['status'] == 'detected'), 'seeded_details': fs,
         'mutant_details': results,
     }
     print('selftest %s: %d/%d mutants killed, %d survived %s, %d skipped; benign variants silent %d/%d'
           % (pid, len(killed), len(results), len(survived), [r['name'] for r in survived], len(skipped), out['benign_silent'], len(benign)))
+    if fs:
+        print('  seeded defects attributed to %s: %d/%d detected %s' % (pid, out['seeded_detected'], len(fs), [x['seed'] + ':' + x['status'] for x in fs if x['status'] != 'detected']))
     for b in benign:
         if not b['silent']:
             print('  benign variant %s NOT silent: extra=%s missing=%s error=%s floor=%s' % (b['variant'], b['extra'][:3], b['missing'][:3], b['error'], b['floor']))
